@@ -463,6 +463,17 @@ fn create_file<P1: AsRef<Path>>(
         );
         return Ok(None);
     }
+    // The file itself may already exist as a symbolic link, which `File::create`
+    // would follow, possibly out of the output directory
+    if fs::symlink_metadata(&extracted_path).is_ok_and(|metadata| metadata.file_type().is_symlink())
+    {
+        eprintln!(
+            " [!] Skipping file \"{}\" because {} is a symbolic link",
+            fname,
+            extracted_path.display()
+        );
+        return Ok(None);
+    }
     Ok(Some((
         File::create(&extracted_path).map_err(|err| {
             eprintln!(" [!] Unable to create \"{fname}\" ({err:?})");
